@@ -35,6 +35,11 @@ type c05Case struct {
 	// ResendEvery > 0: after every ResendEvery-th acknowledgement the client behaves as if the
 	// response had been lost and posts the same line with the same client message id again
 	ResendEvery int `json:"resend_every,omitempty"`
+	// JSON: the node runs with -pre1.0_protobuf=false
+	JSON bool `json:"json_encoding,omitempty"`
+	// ReconnectEvery > 0: after every ReconnectEvery-th message a client opens a new session (new
+	// nickname) and goes on with that one, as a client does after it lost its session
+	ReconnectEvery int `json:"reconnect_every,omitempty"`
 }
 
 type c05Client struct {
@@ -43,6 +48,9 @@ type c05Client struct {
 	acked   []string
 	unacked []string // sent, outcome unknown
 	gone    bool
+	// every session the client used, in order, and which one sent which text
+	creds    []sessionCred
+	sentWith map[string]int
 }
 
 var c05Counter int
@@ -100,6 +108,8 @@ func c05Execute(c *c05Case, base string) (fail *vh.Failure, labels []string, non
 	c05Counter++
 	dir := newNodeDir(base, c05Counter)
 	defer os.RemoveAll(dir)
+	nodeJSON = c.JSON
+	defer func() { nodeJSON = false }()
 	n, err := startNode(dir, true)
 	if err != nil {
 		return vh.Failf("harness", "start: %v", err), nil, false
@@ -143,9 +153,9 @@ func c05Execute(c *c05Case, base string) (fail *vh.Failure, labels []string, non
 		if f != nil {
 			return f, nil, false
 		}
-		clients = append(clients, &c05Client{cred: cred, name: fmt.Sprintf("s%d", k)})
+		clients = append(clients, &c05Client{cred: cred, name: fmt.Sprintf("s%d", k), creds: []sessionCred{cred}, sentWith: map[string]int{}})
 	}
-	var inFlightDuringFault, resent int32
+	var inFlightDuringFault, resent, reconnects int32
 	var horizons []int64
 	var faultActive int32
 	var wg sync.WaitGroup
@@ -180,6 +190,7 @@ func c05Execute(c *c05Case, base string) (fail *vh.Failure, labels []string, non
 					}
 					if code == 200 {
 						cl.acked = append(cl.acked, text)
+						cl.sentWith[text] = len(cl.creds) - 1
 						if c.ResendEvery > 0 && seq%c.ResendEvery == 0 {
 							// the acknowledgement got lost on the way: the bridge repeats the request
 							res2 := make(chan int, 1)
@@ -200,6 +211,53 @@ func c05Execute(c *c05Case, base string) (fail *vh.Failure, labels []string, non
 					time.Sleep(3 * time.Millisecond)
 				}
 				time.Sleep(time.Millisecond)
+				if c.ReconnectEvery > 0 && seq%c.ReconnectEvery == c.ReconnectEvery-1 {
+					// the client lost its session (or so it thinks) and opens a new one
+					var cred sessionCred
+					ok := false
+					for try := 0; try < 400 && !ok && time.Now().Before(deadline); try++ {
+						res := make(chan int, 1)
+						go func() {
+							var code int
+							cred, code = cur.Load().(*inode).createSession()
+							res <- code
+						}()
+						select {
+						case code := <-res:
+							ok = code == 200
+						case <-time.After(2 * time.Second):
+						}
+						if !ok {
+							time.Sleep(3 * time.Millisecond)
+						}
+					}
+					if !ok {
+						return
+					}
+					nick := fmt.Sprintf("%sr%d", cl.name, seq)
+					for _, l := range []string{"NICK " + nick, "USER " + nick + " 0 * :r", "JOIN #c"} {
+						lid := next()
+						acked := false
+						for !acked && time.Now().Before(deadline) {
+							res := make(chan int, 1)
+							go func() { res <- cur.Load().(*inode).post(cred, l, lid) }()
+							select {
+							case code := <-res:
+								acked = code == 200
+							case <-time.After(2 * time.Second):
+							}
+							if !acked {
+								time.Sleep(3 * time.Millisecond)
+							}
+						}
+						if !acked {
+							return
+						}
+					}
+					cl.cred = cred
+					cl.creds = append(cl.creds, cred)
+					atomic.AddInt32(&reconnects, 1)
+				}
 			}
 		}()
 	}
@@ -286,6 +344,12 @@ func c05Execute(c *c05Case, base string) (fail *vh.Failure, labels []string, non
 		}
 		return false
 	}
+	if atomic.LoadInt32(&reconnects) > 0 {
+		lab["c05:client-opened-a-new-session-mid-run"] = true
+	}
+	if c.JSON {
+		lab["c05:json-encoding"] = true
+	}
 	if atomic.LoadInt32(&resent) > 0 {
 		lab["c05:acknowledged-post-repeated-with-same-id"] = true
 	}
@@ -314,19 +378,25 @@ func c05Execute(c *c05Case, base string) (fail *vh.Failure, labels []string, non
 		if c.PingEvery == 0 || cl.gone {
 			continue
 		}
-		own, code := node.readStream(cl.cred, cl.cred.Auth, "0.0", ended, 3*time.Second)
-		if code != 200 {
-			return vh.Failf("sender-stream-refused", "GET messages for %s answered %d after the schedule", cl.name, code), keys2(lab), true
-		}
-		if !ended(own) {
-			continue // inconclusive for this sender
-		}
 		pongs := map[string]int{}
-		for _, m := range own {
-			f := strings.Fields(m.Data)
-			if len(f) >= 3 && f[1] == "PONG" {
-				pongs[strings.TrimPrefix(f[len(f)-1], ":")]++
+		complete := true
+		for _, cred := range cl.creds {
+			own, code := node.readStream(cred, cred.Auth, "0.0", ended, 3*time.Second)
+			if code != 200 {
+				return vh.Failf("sender-stream-refused", "GET messages for %s (session %s) answered %d after the schedule", cl.name, cred.Id, code), keys2(lab), true
 			}
+			if !ended(own) {
+				complete = false
+			}
+			for _, m := range own {
+				f := strings.Fields(m.Data)
+				if len(f) >= 3 && f[1] == "PONG" {
+					pongs[strings.TrimPrefix(f[len(f)-1], ":")]++
+				}
+			}
+		}
+		if !complete {
+			continue // inconclusive for this sender
 		}
 		lab["c05:pings"] = true
 		for _, t := range cl.acked {
@@ -418,7 +488,8 @@ func TestVerifC05(t *testing.T) {
 	}
 	rapid.Check(t, func(rt *rapid.T) {
 		c := &c05Case{Clients: rapid.IntRange(2, 4).Draw(rt, "clients"), Messages: rapid.IntRange(5, 40).Draw(rt, "messages"),
-			PingEvery: rapid.SampledFrom([]int{0, 2, 3, 5}).Draw(rt, "pingevery"), ResendEvery: rapid.SampledFrom([]int{0, 1, 3, 4}).Draw(rt, "resendevery")}
+			PingEvery: rapid.SampledFrom([]int{0, 2, 3, 5}).Draw(rt, "pingevery"), ResendEvery: rapid.SampledFrom([]int{0, 1, 3, 4}).Draw(rt, "resendevery"),
+			JSON: rapid.IntRange(0, 3).Draw(rt, "json") == 0, ReconnectEvery: rapid.SampledFrom([]int{0, 0, 2, 4, 7}).Draw(rt, "reconnectevery")}
 		nf := rapid.IntRange(1, 5).Draw(rt, "nfaults")
 		for k := 0; k < nf; k++ {
 			c.Faults = append(c.Faults, c05Fault{
